@@ -198,8 +198,8 @@ theorem insertOne_fail_no_ack (b : Bucket) (historic : List Bucket) (oldest w : 
   · exact h
   · simp at h
 
-example : ((insertOne { time := 9, reqs := [(1, 9)], secs := [9] } [] 10 100 false).resps.map (·.discard)) = [false] := by decide
-example : ((insertOne { time := 9, reqs := [(1, 9)], secs := [9] } [{ time := 5, reqs := [(2, 5)], secs := [5] }] 10 100 true).body) = [9, 5] := by decide
+example : ((insertOne { time := 9, reqs := [(1, 9)], secs := [9], joined := 1 } [] 10 100 false).resps.map (·.discard)) = [false] := by decide
+example : ((insertOne { time := 9, reqs := [(1, 9)], secs := [9], joined := 1 } [{ time := 5, reqs := [(2, 5)], secs := [5], joined := 1 }] 10 100 true).body) = [9, 5] := by decide
 
 /-! ### agent: a sender gives a second up only after an acknowledgement -/
 
